@@ -799,7 +799,8 @@ def only_taproot_flag(w, n, before):
     """the change of slot n is exactly a flipped `taproot` flag on its key objects (finding D31)"""
     from embit.descriptor.arguments import Key
     o = w.get(n)
-    keys = [o] if isinstance(o, Key) else list(getattr(o, "keys", []) or [])
+    ks = getattr(o, "keys", None)
+    keys = [o] if isinstance(o, Key) else (list(ks) if isinstance(ks, (list, tuple)) else [])   # a dict's .keys is a method
     if not keys or "taproot" not in str(before) and "keys_taproot" not in str(before):
         return False
     old = before.get("taproot") if "taproot" in before else None
